@@ -415,7 +415,7 @@ class World:
                 acts.append(Action('tick', None, nd, cost=1, label=None))
 
         if self.fault_menu is not None and self.faults_used < self.fault_budget and acts:
-            for a in self.fault_menu(self):
+            for a in self.fault_menu(self, acts[0].proc if acts[0].kind == 'run' else None):
                 a.fault = True
                 a.cost  = 0
                 acts.append(a)
